@@ -3,7 +3,9 @@
 """
 This module contains methods for exporting Kern files.
 """
+import copy
 import math
+import sys
 from collections import defaultdict
 from fractions import Fraction
 
@@ -350,6 +352,14 @@ def save_kern(
     """
     # Header extracts meta information about the score
     header = "Here is some random piece"
+    # the score is completed (measures, rests) and merged below: work on a copy,
+    # the caller's objects are left as they are
+    old_recursion_depth = sys.getrecursionlimit()
+    sys.setrecursionlimit(10000)
+    try:
+        score_data = copy.deepcopy(score_data)
+    finally:
+        sys.setrecursionlimit(old_recursion_depth)
     # Kern can output only from part so first let's merge parts (we need a timewise representation)
     if isinstance(score_data, spt.Score):
         # TODO check that divisions are the same
